@@ -14,6 +14,19 @@ def rules(t):
             for v in rr.violations:
                 if "last_packet_received_time" in v.key: r.bad(v.key.split("|", 1)[1], v.site, v.msg)
     out.append(r)
+    r = RuleResult("C18.a2", "REPLAY-DOM: a connected session's timeout is refreshed only by packet kinds covered by the replay protection (a replayed handshake packet cannot postpone a timeout)", floor=1)
+    f = t.fn("NetcodeServer::process_packet_internal")
+    prot = replay_protected_kinds(t)
+    for d in decode_sites(t, f):
+        if not keyed(t, d) or "find_client_mut_by_addr" not in fmt(t.arg(d, 2)): continue   # the decode of the connected-client branch
+        e = t.result_edges(f, d)
+        for s_ in t.stores(CONN, "last_packet_received_time", f):
+            if not e or s_.bb not in f.reachable_from([e[0][1]]) or "find_client_mut_by_addr" not in fmt(t.place(s_)): continue
+            r.site(s_)
+            kinds = variants_at(t, f, d, s_.bb)
+            extra = sorted(k for k in kinds if k not in prot)
+            if extra: r.bad(f"{f.path}|replayable-refresh", s_, f"last_packet_received_time of a connected client is refreshed by packet kinds {extra}, which are not replay protected (protected: {sorted(prot)}): a captured handshake packet replayed from the client's address postpones its timeout forever")
+    out.append(r)
     r = RuleResult("C18.b", "CO-UPDATE: a function changing max_clients keeps the slot array at least as long as the limit", floor=1)
     for s in t.stores(NS, "max_clients"):
         if s.fn.path.endswith("::new"): continue
